@@ -491,6 +491,47 @@ pub fn eval_session_check(check: &str, case: &Case, replies: &[String]) -> Optio
                 Ok(())
             }
         }
+        // C05 oracle on one `analyze` reply
+        ["analysis-wellformed", i] => {
+            let i: usize = i.parse().unwrap();
+            let doc = case.ops[i].split(' ').nth(1).and_then(crate::imp::unhex).unwrap_or_default();
+            analysis_wellformed(&doc, &replies[i])
+        }
+        // C20 oracle on one `lsp` reply
+        ["lsp-wellformed", i] => {
+            let i: usize = i.parse().unwrap();
+            let doc = case.ops[i].split(' ').nth(1).and_then(crate::imp::unhex).unwrap_or_default();
+            lsp_wellformed(&doc, &replies[i])
+        }
+        // C06: analysis error on a straight-line line => executing it fails
+        ["agree-straight", ai, r] => {
+            let ai: usize = ai.parse().unwrap();
+            let (a, b) = parse_range(r);
+            let analysis_err = replies[ai].split(" ; M ").nth(1).unwrap_or("").split(' ').find(|m| m.starts_with("E:")).map(|s| s.to_string());
+            let run_err = (a..=b.min(case.ops.len() - 1)).find(|&k| is_call(&case.ops[k]) && replies[k].starts_with("err ")).map(|k| replies[k].clone());
+            match (analysis_err, run_err) {
+                (Some(ae), None) => Err(format!("analysis rejects the line ({}) but executing it from a fresh state succeeds", ae)),
+                (None, Some(re)) if re.starts_with("err Syntax.") || re.starts_with("err TypeMismatch") || re.starts_with("err UndefinedStatement") => {
+                    Err(format!("analysis reports no error but execution fails with {}", re))
+                }
+                _ => Ok(()),
+            }
+        }
+        // C06: no analysis error => no syntax / type / undefined-line failure at run time
+        ["agree-sound", ai, r] => {
+            let ai: usize = ai.parse().unwrap();
+            let (a, b) = parse_range(r);
+            let has_err = replies[ai].split(" ; M ").nth(1).unwrap_or("").split(' ').any(|m| m.starts_with("E:")) || replies[ai].starts_with("PANIC");
+            if has_err {
+                return Some(Ok(()));
+            }
+            match (a..=b.min(case.ops.len() - 1)).find(|&k| {
+                is_call(&case.ops[k]) && (replies[k].starts_with("err Syntax.") || replies[k].starts_with("err TypeMismatch") || replies[k].starts_with("err UndefinedStatement"))
+            }) {
+                Some(k) => Err(format!("analysis reports no error but execution fails with {} at op {}", replies[k], k)),
+                None => Ok(()),
+            }
+        }
         ["no-syntax-error"] => {
             let mut res = Ok(());
             for i in 0..case.ops.len() {
@@ -503,4 +544,155 @@ pub fn eval_session_check(check: &str, case: &Case, replies: &[String]) -> Optio
         }
         _ => return None,
     })
+}
+
+fn mapped(m: &str) -> Option<(usize, usize, usize)> {
+    // f:a-b
+    let (f, r) = m.split_once(':')?;
+    let (a, b) = r.split_once('-')?;
+    Some((f.parse().ok()?, a.parse().ok()?, b.parse().ok()?))
+}
+
+/// C05: one token list per file line; every diagnostic maps to a position on the file line it
+/// names, inside the line, on character boundaries; per-line token ranges ordered, non-overlapping.
+pub fn analysis_wellformed(doc: &str, reply: &str) -> Result<(), String> {
+    if reply.starts_with("PANIC") {
+        return Err(format!("the analyzer panicked: {}", reply));
+    }
+    let lines: Vec<&str> = doc.split('\n').collect();
+    let Some(rest) = reply.strip_prefix("T ") else { return Err(format!("unparsable reply {}", reply)) };
+    let (toks, msgs) = rest.split_once(" ; M ").unwrap_or((rest.trim_end_matches(" ; M"), ""));
+    let per_line: Vec<&str> = toks.split('|').collect();
+    if per_line.len() != lines.len() {
+        return Err(format!("{} token lists for {} file lines", per_line.len(), lines.len()));
+    }
+    for (i, lt) in per_line.iter().enumerate() {
+        let mut prev_end = 0;
+        for (k, t) in lt.split(',').filter(|t| !t.is_empty()).enumerate() {
+            let r = t.rsplit('@').next().unwrap_or("");
+            let (a, b) = r.split_once('-').ok_or("bad range")?;
+            let (a, b): (usize, usize) = (a.parse().map_err(|_| "bad range")?, b.parse().map_err(|_| "bad range")?);
+            if a > b || b > lines[i].len() || !lines[i].is_char_boundary(a) || !lines[i].is_char_boundary(b) {
+                return Err(format!("file line {}: token range {}-{} outside the line / off a character boundary", i, a, b));
+            }
+            if k > 0 && a < prev_end {
+                return Err(format!("file line {}: token ranges overlap or are out of order at {}-{}", i, a, b));
+            }
+            prev_end = b;
+        }
+    }
+    for m in msgs.split(' ').filter(|m| !m.is_empty()) {
+        let (head, map) = m.rsplit_once('>').ok_or("bad message")?;
+        let file_line: usize = head.split(':').nth(1).and_then(|x| x.parse().ok()).ok_or("bad message")?;
+        if file_line >= lines.len() {
+            return Err(format!("diagnostic {} names file line {} of a {}-line file", head, file_line, lines.len()));
+        }
+        if map == "-" {
+            return Err(format!("diagnostic {} cannot be mapped to a source position", head));
+        }
+        let (f, a, b) = mapped(map).ok_or("bad mapping")?;
+        if f != file_line {
+            return Err(format!("diagnostic {} names file line {} but maps to file line {}", head, file_line, f));
+        }
+        let l = lines[f];
+        if a > b || b > l.len() || !l.is_char_boundary(a) || !l.is_char_boundary(b) {
+            return Err(format!("diagnostic {} maps to {}-{} outside file line {} ({} bytes) or off a character boundary", head, a, b, f, l.len()));
+        }
+    }
+    Ok(())
+}
+
+/// the protocol's notion of lines: "\r\n", "\n" and "\r" end a line
+fn protocol_lines(doc: &str) -> Vec<String> {
+    let mut out = vec![];
+    let mut cur = String::new();
+    let mut it = doc.chars().peekable();
+    while let Some(c) = it.next() {
+        if c == '\r' {
+            if it.peek() == Some(&'\n') {
+                it.next();
+            }
+            out.push(std::mem::take(&mut cur));
+        } else if c == '\n' {
+            out.push(std::mem::take(&mut cur));
+        } else {
+            cur.push(c);
+        }
+    }
+    out.push(cur);
+    out
+}
+
+/// C20: ranges and tokens inside the document (UTF-16 columns), tokens ordered and non-overlapping with
+/// types from the legend, diagnostics = the analyzer's mappable messages for that text.
+pub fn lsp_wellformed(doc: &str, reply: &str) -> Result<(), String> {
+    if reply.starts_with("PANIC") || reply == "NO-SERVER" {
+        return Err(format!("the language server died or could not be started: {}", reply));
+    }
+    let lines = protocol_lines(doc);
+    let u16len = |s: &str| s.encode_utf16().count();
+    let Some(rest) = reply.strip_prefix("D ") else { return Err(format!("unparsable reply {}", reply)) };
+    let (diags, toks) = rest.split_once(" ; S ").unwrap_or((rest.trim_end_matches(" ; S"), ""));
+    let mut n_diags = 0;
+    let mut texts: Vec<String> = vec![];
+    for d in diags.split(' ').filter(|d| !d.is_empty()) {
+        n_diags += 1;
+        let parts: Vec<&str> = d.splitn(4, ':').collect();
+        let line: usize = parts[0].parse().map_err(|_| "bad diag")?;
+        let (a, b) = parts[1].split_once('-').ok_or("bad diag")?;
+        let (a, b): (usize, usize) = (a.parse().map_err(|_| "bad diag")?, b.parse().map_err(|_| "bad diag")?);
+        if line >= lines.len() {
+            return Err(format!("diagnostic on line {} of a {}-line document", line, lines.len()));
+        }
+        if a > b || b > u16len(&lines[line]) {
+            return Err(format!("diagnostic range {}-{} outside line {} ({} UTF-16 units)", a, b, line, u16len(&lines[line])));
+        }
+        texts.push(parts[3].to_string());
+    }
+    // decode the semantic tokens
+    let (mut line, mut col, mut prev_end) = (0usize, 0usize, 0usize);
+    for t in toks.split(' ').filter(|t| !t.is_empty()) {
+        let v: Vec<usize> = t.split(',').map(|x| x.parse().unwrap_or(usize::MAX)).collect();
+        if v.len() != 4 || v.contains(&usize::MAX) {
+            return Err(format!("unparsable semantic token {}", t));
+        }
+        if v[0] > 0 {
+            line += v[0];
+            col = v[1];
+            prev_end = 0;
+        } else {
+            col += v[1];
+        }
+        if line >= lines.len() {
+            return Err(format!("semantic token on line {} of a {}-line document", line, lines.len()));
+        }
+        if col < prev_end {
+            return Err(format!("semantic tokens overlap on line {} at column {}", line, col));
+        }
+        if col + v[2] > u16len(&lines[line]) {
+            return Err(format!("semantic token {}+{} runs past the end of line {} ({} UTF-16 units)", col, v[2], line, u16len(&lines[line])));
+        }
+        if v[3] >= 8 {
+            return Err(format!("semantic token type {} is not in the advertised legend", v[3]));
+        }
+        prev_end = col + v[2];
+    }
+    // the set of diagnostics equals the analyzer's (mappable) messages for the latest text
+    let a = abasic_core::SourceFileAnalyzer::analyze_lines(lines.clone());
+    let map = a.source_file_map();
+    let mut want: Vec<String> = a
+        .messages()
+        .iter()
+        .filter(|m| map.map_to_source(m).is_some())
+        .map(|m| match m {
+            abasic_core::DiagnosticMessage::Warning(_, _, msg) => crate::imp::hex(msg),
+            abasic_core::DiagnosticMessage::Error(_, e) => crate::imp::hex(&e.to_string()),
+        })
+        .collect();
+    want.sort();
+    texts.sort();
+    if want != texts {
+        return Err(format!("{} diagnostics published but the analyzer has {} messages for the latest text (or their texts differ)", n_diags, want.len()));
+    }
+    Ok(())
 }
